@@ -491,7 +491,11 @@ func (o *ObjectSchema) applySubObjectDefaultValuesRecursive(
 	}
 	subObjectDefaults := subObject.GetDefaults()
 	for k, v := range subObjectDefaults {
-		data[k] = v
+		// Only fill in what is missing: a value that is already there comes from the default declared on the
+		// member itself, which takes precedence over the defaults of the member's properties.
+		if _, alreadySet := data[k]; !alreadySet {
+			data[k] = v
+		}
 	}
 	for subPropertyID, subProperty := range subObject.Properties() {
 		o.applySubObjectDefaultValuesRecursive(subPropertyID, subProperty, data, visiting)
